@@ -265,13 +265,17 @@ class Engine:
                 raise Unsupported(f"contract of {qualname} does not give a sort for parameter '{pname}'")
         self.is_generator = any(isinstance(n, (ast.Yield, ast.YieldFrom)) for n in ast.walk(ast.Module(body=F.body, type_ignores=[])))
         if self.is_generator:
-            st.env["__out__"] = ListV(0, lambda i: IntV(0))
+            if K.returns == "CellSetGen":
+                st.env["__out__"] = SetV(lambda v: z3.BoolVal(False), 2)
+            else:
+                st.env["__out__"] = ListV(0, lambda i: IntV(0))
         start = len(self.obls)
         outcomes = self.exec_block(F.body, st)
         for kind, s, val in outcomes:
             if kind in ("fall", "return"):
                 if self.is_generator:
-                    val = s.env["__out__"].snapshot("gen")
+                    out_v = s.env["__out__"]
+                    val = out_v if isinstance(out_v, SetV) else out_v.snapshot("gen")
                 elif kind == "fall":
                     val = NONE
                 self.check_post(s, val)
@@ -522,6 +526,14 @@ class Engine:
 
     def do_yield(self, node, st):
         out = st.env["__out__"]
+        if isinstance(out, SetV):
+            if isinstance(node, ast.Yield):
+                v = self.ev(node.value, st)
+                st.env["__out__"] = SetV(lambda x, out=out, v=v: z3.Or(B(out.contains(x)), veq(x, v)), out.arity)
+            else:
+                other = self.to_set(self.ev(node.value, st), st)
+                st.env["__out__"] = SetV(lambda x, out=out, other=other: z3.Or(B(out.contains(x)), B(other.contains(x))), out.arity)
+            return
         if isinstance(node, ast.Yield):
             v = NONE if node.value is None else self.ev(node.value, st)
             out.append(v)
@@ -569,8 +581,21 @@ class Engine:
         if isinstance(it, TupV):
             return self.unroll_for(node, it.items, st)
         if isinstance(it, SetV):
-            raise Unsupported("for-loop over a set (order unspecified)")
+            return self.set_accumulation_loop(node, it, st)
         seq = self.as_seq(it, st)
+        n_c = z3.simplify(seq.n)
+        if z3.is_int_value(n_c) and 0 <= n_c.as_long() <= 8 and self.contract.invariants.get(ordinal) is None:
+            return self.unroll_for(node, [seq.at(z3.IntVal(i)) for i in range(n_c.as_long())], st)
+        carried0 = assigned_names(node.body) - _target_names(node.target)
+        if self.contract.invariants.get(ordinal) is None and carried0 and all(isinstance(st.env.get(nm), SetV) for nm in carried0 if nm in st.env) and any(nm in st.env for nm in carried0):
+            probe = seq.at(fresh("pe"))
+            ar = len(probe) if isinstance(probe, TupV) else 1
+
+            def dom_contains(v, seq=seq):
+                j = fresh("dj")
+                return z3.Exists([j], z3.And(j >= 0, j < seq.n, veq(seq.at(j), v)))
+
+            return self.set_accumulation_loop(node, SetV(dom_contains, ar), st)
         carried = sorted(assigned_names(node.body) - _target_names(node.target))
         inv = self.contract.invariants.get(ordinal)
         if inv is None:
@@ -614,6 +639,51 @@ class Engine:
         else:
             results.append(("fall", exit_st, None))
         return results
+
+    def set_accumulation_loop(self, node, dom, st):
+        """for e in S: <body that only adds to local sets>.  Iteration order is unspecified, so
+        the only supported shape is a monotone accumulation:  A' = A | { v : exists e in S. body(e)
+        adds v }.  The body is executed once for an arbitrary element with empty accumulators."""
+        carried = sorted(assigned_names(node.body) - _target_names(node.target))
+        live_after = carried  # conservatively: every carried name must be a set accumulator or a body-local
+        accs = [nm for nm in carried if isinstance(st.env.get(nm), SetV)]
+        for nm in carried:
+            if nm not in accs and nm in st.env:
+                raise Unsupported(f"loop over a set carries non-accumulator state '{nm}'")
+        xs = [fresh("se") for _ in range(dom.arity)]
+        elem = IntV(xs[0]) if dom.arity == 1 else TupV([IntV(x) for x in xs])
+        s0 = st.fork()
+        base_len = len(s0.pc)
+        s0.assume(dom.contains(elem))
+        old = {nm: st.env[nm] for nm in accs}
+        for nm in accs:
+            s0.env[nm] = SetV(lambda v: z3.BoolVal(False), old[nm].arity)
+        self.assign(node.target, elem, s0)
+        contrib = {nm: [] for nm in accs}
+        for kind, s, _val in self.exec_block(node.body, s0):
+            if kind not in ("fall", "continue"):
+                raise Unsupported(f"loop over a set: body path ends in {kind}")
+            path = z3.And(s.pc[base_len:]) if len(s.pc) > base_len else z3.BoolVal(True)
+            for nm in accs:
+                contrib[nm].append((path, s.env[nm]))
+        for nm in accs:
+            parts = contrib[nm]
+            o = old[nm]
+
+            def contains(v, parts=parts, o=o):
+                alts = [z3.Exists(xs, z3.And(path, B(acc.contains(v)))) for path, acc in parts]
+                return z3.Or(B(o.contains(v)), *alts)
+
+            ar = o.arity
+            for _p, acc in parts:
+                ar = acc.arity or ar
+            st.env[nm] = SetV(contains, ar)
+        _ = live_after
+        for nm in _target_names(node.target):
+            st.env.pop(nm, None)
+        if node.orelse:
+            return self.exec_block(node.orelse, st)
+        return [("fall", st, None)]
 
     def unroll_for(self, node, items, st):
         """A loop over a tuple of statically known arity (e.g. *others) is unrolled."""
@@ -807,7 +877,16 @@ class Engine:
         return None
 
     def ev_Tuple(self, node, st):
-        return TupV([self.ev(e, st) for e in node.elts])
+        items = []
+        for e in node.elts:
+            if isinstance(e, ast.Starred):
+                v = self.ev(e.value, st)
+                if not isinstance(v, TupV):
+                    raise Unsupported("* of a sequence of unknown arity in a tuple display")
+                items.extend(v.items)
+            else:
+                items.append(self.ev(e, st))
+        return TupV(items)
 
     def ev_List(self, node, st):
         items = [self.ev(e, st) for e in node.elts]
@@ -1321,6 +1400,13 @@ class Engine:
             return self.fresh_mesh("res", st, assume=False)
         if r is None or r == "none":
             return NONE
+        if r == "CellSet":
+            S_ = fresh_fun("res_cells", z3.IntSort(), z3.IntSort(), z3.BoolSort())
+            out = SetV(lambda v: S_(Z(v[0]), Z(v[1])), 2)
+            out.fun = S_
+            return out
+        if r.startswith("bool*"):
+            return TupV([BoolV(fresh("res", "bool")) for _ in range(int(r[5:]))])
         raise Unsupported(f"result sort {r}")
 
 
